@@ -121,3 +121,13 @@ Lemma wrap_u8_eq x : wrap U8 x = wrap_u8 x.
 Proof. unfold wrap, wrap_u8; cbn [ilo imod]. rewrite Z.sub_0_r, Z.add_0_r. reflexivity. Qed.
 Lemma wrap_i16_eq x : wrap I16 x = wrap_i16 x.
 Proof. unfold wrap, wrap_i16; cbn [ilo imod]. replace (x - -32768) with (x + 32768) by lia. lia. Qed.
+
+(* closing a bridge goal `Ok gen = Ok model` (or `gen = model`) after symbolic execution: syntactically equal in the normal
+   case; after a harmless rewrite of the source (operands swapped, clamp written as max/min, ...) linear arithmetic over the
+   unfolded model definitions (hint database kmodel of the bridge file) often still closes it *)
+Create HintDb kmodel.
+Ltac kfin :=
+  subst;
+  first [ reflexivity
+        | f_equal; first [ reflexivity | autounfold with kmodel; unfold clamp, wrap_u8; cbn [ilo ihi imod]; lia ]
+        | autounfold with kmodel; unfold clamp; lia ].
